@@ -41,6 +41,14 @@ func c05RunX(rc *simrt.RunCtx, faults, inject bool) {
 		rf = swarmRelay(rc, healAt)
 		if inject {
 			rf.injectPm = []int{20, 60, 150}[rc.Pick(3, "relay.k.inject")]
+		} else if rc.Pick(4, "relay.k.garbage") == 0 {
+			// until the relay heals, a freshly (re)opened receive stream may
+			// deliver an undecodable message first: connections die in their
+			// GBN handshake or in the data phase, visibly; after the heal the
+			// session must recover like after any other fault
+			rf.garbageAny = true
+			rf.garbagePm = []int{50, 150, 300}[rc.Pick(3, "relay.k.garbagepm")]
+			rc.Knob("relay.garbage", rf.garbagePm)
 		}
 	} else {
 		rf = relayFaults{latMin: time.Millisecond, latMax: time.Duration(2+rc.Pick(30, "relay.latmax")) * time.Millisecond}
